@@ -125,7 +125,8 @@ func (e *Constant) GetSnapshot() string {
 	buff.WriteString("->")
 	switch e.Value.Kind() {
 	case reflect.String:
-		buff.WriteString(fmt.Sprintf("\"%s\"", e.Value.String()))
+		// quoted, so that quotes, brackets or commas inside the constant can not imitate snapshot syntax
+		buff.WriteString(strconv.QuoteToASCII(e.Value.String()))
 	case reflect.Int, reflect.Int8, reflect.Int16, reflect.Int32, reflect.Int64:
 		buff.WriteString(fmt.Sprintf("%d", e.Value.Int()))
 	case reflect.Uint, reflect.Uint8, reflect.Uint16, reflect.Uint32, reflect.Uint64:
